@@ -275,6 +275,19 @@ func genPool(t *rapid.T, n int) []*Op {
 			pool = append(pool, &Op{Kind: "run", Scripts: map[string]string{"main.p": "probe(\"caller-start\")\nv = 1\nuse(\"c.p\")\nprobe(\"caller-end\", v)\nadd_key(done, true)", "c.p": tp.src}, Root: "c.p", Tags: tags, Fields: fields, Class: tp.class})
 		}
 	}
+	// builtins whose engine keeps adaptive or memoised state: every subject / argument of a small set once
+	for _, q := range []string{"SELECT * FROM files WHERE dir = 'C:\\'", "SELECT * FROM files WHERE dir = 'C:\\' -- user's home\nAND owner = 7", "SELECT 'backslash\\' AND id ='1234'", "SELECT 'a\\' -- ', b\nFROM t", "select 1", "SELECT * FROM logs WHERE dir = 'C:\\' -- the user's root\nAND level = 'warn'"} {
+		pool = append(pool, &Op{Kind: "run", Scripts: map[string]string{"main.p": "sql_cover(_)\nprobe(\"q\", message)"}, Root: "main.p", Tags: map[string]string{}, Fields: renderFields(map[string]any{"message": q}), Class: "ok"})
+	}
+	for _, z := range []string{"Asia/Tokyo", "Mars/Olympus_Mons", "America/New_York", "+8", "Nowhere/City", "", "UTC", "-3:30", "+99"} {
+		pool = append(pool, &Op{Kind: "run", Scripts: map[string]string{"main.p": fmt.Sprintf("add_key(ts, \"2021-05-27 06:54:14\")\ndefault_time(ts, %q)\nprobe(\"ts\", ts)", z)}, Root: "main.p", Tags: map[string]string{}, Fields: renderFields(map[string]any{"message": "m"}), Class: "ok"})
+	}
+	for _, lay := range []string{"RFC3339", "ANSIC", "nosuch layout", "2006-01-02", ""} {
+		pool = append(pool, &Op{Kind: "run", Scripts: map[string]string{"main.p": fmt.Sprintf("datetime(n1, \"ms\", %q)\nprobe(\"d\", n1)", lay)}, Root: "main.p", Tags: map[string]string{}, Fields: renderFields(map[string]any{"n1": int64(1622098454760)}), Class: "ok"})
+	}
+	for _, doc := range []string{"{\"a\": 1, \"items\": [1, 2]}", "[1, 2]", "{bad"} {
+		pool = append(pool, &Op{Kind: "run", Scripts: map[string]string{"main.p": "d = load_json(_)\nprobe(\"first\", d)\nif true { d[\"extra\"] = true }\nd2 = load_json(_)\nprobe(\"again\", d2)"}, Root: "main.p", Tags: map[string]string{}, Fields: renderFields(map[string]any{"message": doc}), Class: "ok"})
+	}
 	for _, txt := range badParses {
 		pool = append(pool, &Op{Kind: "parse", Text: txt, Class: "parse-error"})
 	}
